@@ -51,3 +51,15 @@ TABLE.update({
          "level": "Exploration: generated datasets written as text and NetCDF (optional variables present/absent, five missing encodings, shuffled dimension entries); readers compared by coordinates and with the dictionary; csv scores must be identical; text2nc outputs compared at float32 precision.",
          "note": TB, "design": "DESIGN.md 4/C10"},
 })
+
+TABLE.update({
+ "C12": {"technique": "runtime monitoring: emitted tables parsed back and compared with scores obtained through the API and with the reference interpreter; -f vs stdout byte comparison; sys.addaudithook on file opens",
+         "level": "Exploration: ~640 (quick) / ~15000 (thorough) generated command lines over all metric classes x 19 axes x {csv,text} x {-f, stdout} x {-leg,-acc,-r/-b,-agg}; header, row order, descriptors and every printed number are checked (6 / 4 significant digits), -f content must equal stdout content and be the only file written.",
+         "note": TB, "design": "DESIGN.md 4/C12"},
+ "C14": {"technique": "runtime monitoring: reference model with climatology (cell-by-cell anomaly values and dropped cases), metamorphic pair `-c X` vs X as extra input, header monitor",
+         "level": "Exploration: generated inputs + climatology files with their own coverage/missingness/zeros; every anomaly cell, csv tables on all axes against the reference interpreter, shift-invariant metamorphic relation, legend/column handling.",
+         "note": TB, "design": "DESIGN.md 4/C14"},
+ "C18": {"technique": "runtime monitoring: sequential-specification checking of request histories (fresh dataset = specification), ledger of returned arrays, SHA-1 of input arrays, cross-process repeatability",
+         "level": "Exploration with exhaustive histories: all sequences up to length 3 (plain; length 2 for the other dataset kinds in quick) over a 16-request menu on four dataset kinds (plain, obs-range, climatology, PIT), random histories of length 4-30, and byte comparison of repeated commands in separate processes with different PYTHONHASHSEED.",
+         "note": TB, "design": "DESIGN.md 4/C18"},
+})
